@@ -211,7 +211,7 @@ pub fn case(t: &mut Tape, ctx: &CaseCtx) -> CaseResult {
             s.can_start = vec![cs];
             s.reboot_needed = vec![rn];
             s.reboot_allowed = vec![(ra, ra), (true, true)];
-            run_history(s, &[LifePlan { oneshot: false, checks: 1, crash_at: None }])
+            run_history(s, &[LifePlan::new(false, 1, None)])
         }
         1 => {
             let p = Profile { negative_decisions: (1, 3), offer_w: 6, outcome_w: [12, 1, 1, 1, 2, 1, 1], ..Default::default() };
@@ -224,7 +224,7 @@ pub fn case(t: &mut Tape, ctx: &CaseCtx) -> CaseResult {
                     _ => s.apps[i].version = vec![0, 0, 0, 0],
                 }
             }
-            run_history(s, &[LifePlan { oneshot: t.chance(1, 10), checks: 1 + t.choose(3), crash_at: None }])
+            run_history(s, &[LifePlan { oneshot: t.chance(1, 10), checks: 1 + t.choose(3), crash_at: None, wall_at_start: None }])
         }
         _ => super::sched::run_scheduled(t, &super::sched::SchedProfile::default()).0,
     };
